@@ -329,6 +329,7 @@ mod verif_kani_array {
         assert!(x.array_eq(&y));
     }
 
+    // (u8::sort_list — a 256-bucket counting sort — does not finish under CBMC within 15 min even for 4 bytes: undecided)
     // ---------------- C05: flags ----------------
     //@ id=C05.e1.flags.reverse_sorted props=C05 level=complete tier=quick
     #[kani::proof]
